@@ -255,7 +255,7 @@ class P:
         """[typename] Type [const] name ( '=' | '{' | '(' ) ...   with Type one of auto / *layout_t* / index / size_type ..."""
         j = self.i
         v = self.t[j][1] if j < len(self.t) else ""
-        if v in ("auto", "typename"):
+        if v in ("auto", "typename", "bool", "int", "index", "difference_type", "size_type"):
             return True
         # qualified name ending in layout_t[<...>] followed by [const] identifier
         k = j
@@ -425,7 +425,7 @@ class P:
 
     def unary(self):
         v = self.val()
-        if v in ("!", "-", "+", "*"):
+        if v in ("!", "-", "+", "*", "&"):
             self.eat()
             return ("un" + v, self.unary())
         if v in ("++", "--"):
@@ -475,6 +475,9 @@ class P:
         if k == "str":
             self.eat()
             return ("str", v)
+        if v == "::" and self.peek(1)[0] == "id":
+            self.eat()
+            k, v, ln = self.peek()
         if k == "id":
             if v == "typename":
                 self.eat()
